@@ -27,7 +27,7 @@ def search(ck, binpath, n):
     if rc != 0:
         ck.tie_broken("harness c33 search failed", err[-2000:])
         return
-    for l in out.splitlines():
+    for l in jlines(out):
         if not l.strip():
             continue
         v = json.loads(l)
@@ -45,7 +45,7 @@ def replay(ck, binpath, path):
         if case is None:
             continue
         rc, out, err = ck.run_bin(binpath, ["one", "--case-json", json.dumps(case)])
-        for l in out.splitlines():
+        for l in jlines(out):
             vv = json.loads(l)
             ck.violation(vv["signature"], vv["what"], {"case": case, "what": vv["what"]})
 
